@@ -25,7 +25,8 @@ func ParseRate(rateArg string) (int, time.Duration, error) {
 		if unitArg == "" {
 			return rate, unit, fmt.Errorf("unable to parse rate %s: missing unit", rateArg)
 		}
-		if !isNumeric(unitArg[0:1]) {
+		// a unit on its own (e.g. "s") means one of it; durations like "2s" or ".5s" are used as they are
+		if !isNumeric(unitArg[0:1]) && unitArg[0:1] != "." {
 			unitArg = "1" + unitArg
 		}
 		unit, err = time.ParseDuration(unitArg)
